@@ -992,6 +992,7 @@ class BSRMatrix : public CSRMatrix
         b_cols = block_col_size;
         b_size = b_rows * b_cols;
 
+        idx1.clear();
         init_from_lists(rowptr, cols, data);
     }
 
@@ -1225,6 +1226,7 @@ class BSCMatrix : public CSCMatrix
         b_cols = block_col_size;
         b_size = b_rows * b_cols;
 
+        idx1.clear();
         init_from_lists(colptr, rows, data);
     }
 
